@@ -12,6 +12,7 @@ import (
 	"verif/internal/load"
 	"verif/internal/report"
 	"verif/internal/yacc"
+	"verif/internal/yyflow"
 )
 
 type Ctx struct {
@@ -23,6 +24,8 @@ type Ctx struct {
 	tbs   map[string]*kinds.Table
 
 	langs    map[string]*yacc.Lang
+	flows    map[string]*yyflow.Lang
+	shapes   map[string]map[string]*yyflow.Shape
 	cleanups []func()
 }
 
@@ -156,6 +159,11 @@ func (c *Ctx) compareFixture(name, rule, dir string, res *report.RuleResult) {
 	if err := json.Unmarshal(b, &exp); err != nil {
 		fail("expect.json: " + err.Error())
 		return
+	}
+	if os.Getenv("VERIF_DUMP") != "" {
+		for _, ob := range res.Obls {
+			fmt.Printf("  fixture[%s] [%s] %s: %s\n", label, ob.Status, ob.Key, ob.Detail)
+		}
 	}
 	want := map[string]bool{}
 	for _, k := range exp[rule] {
